@@ -32,11 +32,19 @@
       field names), under the envelope alone (a fragment may be named with a leading "__" - the
       validator accepts it, [fieldName] moves the underscores to the end; the label of a fragment in
       a leaf path is its lower-cased name without leading and trailing underscores, [frag_label]).
-      PARTIAL: the clause about the declared identifiers as a whole ([cl_identifiers]: enum types,
-      enum constants, <Op>Data, <F>Fragment, sel<T><n>, json pairwise distinct identifiers; field
-      names identifiers) is still proved through the agreement, i.e. under
-      [excl_member_clash S d = false] and [decl_safe S d = true] ([C20_gen_wf_partial],
-      [C20_gen_wf_clauses_partial]).
+      The clause about the declared identifiers as a whole ([cl_identifiers]: enum types, enum
+      constants, <Op>Data, <F>Fragment, sel<T><n>, json pairwise distinct usable identifiers; field
+      names identifiers), and with it [wf_program], is proved of [generate_real] too, clashes
+      included ([C20_gen_wf], [C20_gen_wf_clauses]; ClientGenDeclSafeS.v, ClientGenWfS.v), under a
+      names-only residue of three decidable conditions (ClientGenSpec.v), evaluated on every case
+      of the correspondence check:
+      [no_sel_names S d] - no pre-assigned enum type / constant name begins with "sel" (what is
+        left of the known finding decl-name-clash: a declaration coinciding with a sel<T><n> helper);
+      [no_digit_types S] - no composite type name ends in a digit (sel<T1><n1> = sel<T2><n2>);
+      [lex_names S d] - names are lexically names: every response key / composite type / fragment /
+        type condition gives a usable Go field name (every GraphQL name but "_", known finding
+        blank-field-name, and "__" followed by a digit), enum / operation / fragment names are
+        names, enum values consist of name characters and are distinct within their enum.
     - [excl_decl_clash] (two generated declarations get the same identifier, or a schema name is
       used where Go cannot take it) is repaired too ("an enum named like a generated type, a
       reserved identifier or another enum's constant": the names of enum types and constants are
@@ -65,14 +73,17 @@ From Coq Require Import List NArith Bool String.
 Open Scope string_scope.
 From ApiFu Require Import Base.Sexp Gen.GoTypes Gen.ClientGenModel Gen.DecodeModel Gen.ClientGenSpec
      Gen.ClientGenMain Gen.ClientGenWitness Gen.ClientGenDeclSafe Gen.LoadSchemaModel Gen.LoadSchemaProofs
-     Gen.ClientGenAgree Gen.ClientGenFresh Gen.ClientGenClauses Gen.ClientGenTopS.
+     Gen.ClientGenAgree Gen.ClientGenFresh Gen.ClientGenClauses Gen.ClientGenTopS Gen.ClientGenWfS.
 Import ListNotations.
 
-(** the generator accepts every operation of the envelope and its output is well formed *)
-Theorem C20_gen_wf_partial : forall D S d,
-  env S d = true -> schema_loadable S = true -> excl_member_clash S d = false -> decl_safe S d = true ->
+(** the generator of the current tree accepts every operation of the envelope and its output is well
+    formed ([wf_program]: the modelled part of "compiles"), member-name and declaration-name clashes
+    included, under the names-only residue [no_sel_names] / [no_digit_types] / [lex_names] *)
+Theorem C20_gen_wf : forall D S d,
+  env S d = true -> schema_loadable S = true ->
+  no_sel_names S d = true -> no_digit_types S = true -> lex_names S d = true ->
   exists p, generate_real D S (doc_valid S d) d = GOk p /\ wf_program p = true.
-Proof. exact real_accepts_wf. Qed.
+Proof. exact real_s_wf. Qed.
 
 (** the generator of the current tree and the generator the proofs are carried out on agree when no
     two members of a selection set derive the same field name *)
@@ -134,11 +145,12 @@ Proof. exact enum_const_names_distinct. Qed.
 (** the same, clause by clause (definitions and the Go rule each clause stands for: ClientGenClauses.v):
     distinct struct members and well-targeted UnmarshalJSON statements, declared references,
     forwarders only to types with the method, identifiers *)
-Theorem C20_gen_wf_clauses_partial : forall D S d,
-  env S d = true -> schema_loadable S = true -> excl_member_clash S d = false -> decl_safe S d = true ->
+Theorem C20_gen_wf_clauses : forall D S d,
+  env S d = true -> schema_loadable S = true ->
+  no_sel_names S d = true -> no_digit_types S = true -> lex_names S d = true ->
   exists p, generate_real D S (doc_valid S d) d = GOk p /\
             cl_struct_members p /\ cl_references p /\ cl_method_forwarders p /\ cl_identifiers p.
-Proof. exact real_wf_clauses. Qed.
+Proof. exact real_s_wf_clauses. Qed.
 
 (** the generator of the current tree, member-name clashes included: it accepts, every struct has
     pairwise distinct field names and an UnmarshalJSON over existing fields, every referenced type
@@ -170,11 +182,9 @@ Proof. exact real_s_decodes. Qed.
     hence pairwise distinct names when no composite type name ends in a digit.  [lex_fields]: every
     response key / composite type / fragment / type condition gives a usable field name (every
     GraphQL name but "_": known finding blank-field-name).
-    PARTIAL with respect to [cl_identifiers]: that the declared identifiers (enum types, constants,
-    <Op>Data, <F>Fragment, sel<T><n>, json) are pairwise distinct AS A WHOLE is proved only through
-    [C20_gen_wf_partial]; the parts are here, [C20_gen_accepts_structs] (<Op>Data / <F>Fragment),
-    [C20_enum_type_names_distinct] and [C20_enum_const_names_distinct]. *)
-Theorem C20_gen_identifiers_partial : forall D S d p,
+    These are the parts about the generator's state from which [C20_gen_wf] is assembled (with
+    [C20_gen_accepts_structs], [C20_enum_type_names_distinct], [C20_enum_const_names_distinct]). *)
+Theorem C20_gen_identifiers : forall D S d p,
   schema_ok S = true -> schema_loadable S = true -> lex_fields S d = true ->
   generate_real D S (doc_valid S d) d = GOk p ->
   (forall dfn, In dfn (p_defs p) -> idents_ok (td_type dfn) = true) /\
@@ -273,7 +283,7 @@ Theorem C20_refuted_sel_name_clash :
   generated_and (generate_s schemaK8 (doc_valid schemaK8 docK8) docK8) (fun p => negb (wf_program p)) = true.
 Proof. exact refuted_sel_name_clash. Qed.
 
-Print Assumptions C20_gen_wf_partial.
+Print Assumptions C20_gen_wf.
 Print Assumptions C20_decl_safe_sufficient.
 Print Assumptions C20_load_type_roundtrip.
 Print Assumptions C20_load_schema_roundtrip.
@@ -283,10 +293,10 @@ Print Assumptions C20_real_invalid_no_output.
 Print Assumptions C20_assigned_field_names_distinct.
 Print Assumptions C20_enum_type_names_distinct.
 Print Assumptions C20_enum_const_names_distinct.
-Print Assumptions C20_gen_wf_clauses_partial.
+Print Assumptions C20_gen_wf_clauses.
 Print Assumptions C20_gen_accepts_structs.
 Print Assumptions C20_gen_decodes.
-Print Assumptions C20_gen_identifiers_partial.
+Print Assumptions C20_gen_identifiers.
 Print Assumptions C20_generators_agree.
 Print Assumptions C20_fixed_member_name_clash.
 Print Assumptions C20_gen_invalid_no_output.
